@@ -310,7 +310,7 @@ func (x *Exec) applyContract(fr *Frame, st *State, fn *ssa.Function, fc *FnContr
 		if site != nil {
 			x.obligation(fr, site, "pre", st.PC, t, "precondition "+r.Label+" of "+fc.Name+": "+r.Text)
 		}
-		x.C.Assume(Implies(st.PC, t), "callee precondition established")
+		x.C.Assume(Implies(x.absPC(st.PC),t), "callee precondition established")
 	}
 	x.C.trusted["contract of "+fc.Name+" (checked separately)"] = true
 	// frame
@@ -335,7 +335,7 @@ func (x *Exec) applyContract(fr *Frame, st *State, fn *ssa.Function, fc *FnContr
 		if err != nil {
 			return nil, fmt.Errorf("contract of %s: ensures %s: %v", fc.Name, en.Label, err)
 		}
-		x.C.Assume(Implies(st.PC, t), "ensures "+en.Label+" of "+fc.Name)
+		x.C.Assume(Implies(x.absPC(st.PC),t), "ensures "+en.Label+" of "+fc.Name)
 	}
 	return results, nil
 }
